@@ -25,14 +25,20 @@ type reporter struct {
 	listed map[string]int
 	more   map[string]int
 	first  map[string]string
+	seen   map[string]bool // keys already handled: a repeat neither uses up the listing cap nor counts as "more"
 }
 
 func newReporter(r *mon.Run) *reporter {
-	return &reporter{r: r, listed: map[string]int{}, more: map[string]int{}, first: map[string]string{}}
+	return &reporter{r: r, listed: map[string]int{}, more: map[string]int{}, first: map[string]string{}, seen: map[string]bool{}}
 }
 
 // violate must be called from one goroutine, in enumeration order.
 func (rp *reporter) violate(v pendingViolation) {
+	if rp.seen[v.key] {
+		rp.r.Count("violations_repeated", 1)
+		return
+	}
+	rp.seen[v.key] = true
 	if rp.listed[v.class] < listCap {
 		rp.listed[v.class]++
 		rp.r.Violate(v.key, v.what, v.replay)
